@@ -153,6 +153,13 @@ theorem iso_reflexive (g : MG) (hnd : nodupNd (g.nodes.map (·.1)) = true)
     (hop : ∀ n ∈ g.nodes.map (·.1), (g.opOf n).isSome = true) : isoCheck g g (idMapOf g) = true :=
   isoCheck_refl g hnd hop
 
+/-- **the coded isomorphism relation is symmetric**: a map passing the check from `g1` to `g2` yields (its inverse) a
+    map passing the check from `g2` to `g1` — so, `networkx.is_isomorphic` deciding existence, the comparison gives the
+    same answer for (a, b) and (b, a) -/
+theorem iso_symmetric (g1 g2 : MG) (f : List (Nd × Nd)) (h : isoCheck g1 g2 f = true) :
+    ∃ f', isoCheck g2 g1 f' = true :=
+  ⟨_, isoCheck_symm g1 g2 f h⟩
+
 /-- a positive answer of the model always exhibits a map that passes the full check (the search is never trusted) -/
 theorem iso_answer_is_checked (g1 g2 : MG) (h : isoGraphs g1 g2 = true) :
     ∃ f, isoCheck g1.addControlTarget g2.addControlTarget f = true := isoGraphs_witness g1 g2 h
